@@ -5,6 +5,7 @@ package server
 import (
 	"context"
 	"net"
+	"syscall"
 	"net/netip"
 	"time"
 
@@ -109,7 +110,17 @@ func VerifC10NewUDP(script VerifC10Script, srv *Server, inline bool, queue int, 
 func VerifC10NewUDPBind(script VerifC10Script, srv *Server, inline bool, queue int, slabCap int, wildcard bool) (*VerifC10UDP, error) {
 	var pc *net.UDPConn
 	if wildcard {
-		lc := net.ListenConfig{Control: pktinfoControl("udp")}
+		// the listener's pktinfo options WITHOUT SO_REUSEPORT: a rig's port must not be
+		// shareable with whatever else runs on this machine under the same uid
+		lc := net.ListenConfig{Control: func(_, _ string, c syscall.RawConn) error {
+			var serr error
+			if err := c.Control(func(fd uintptr) {
+				serr = unix.SetsockoptInt(int(fd), unix.IPPROTO_IP, unix.IP_PKTINFO, 1)
+			}); err != nil {
+				return err
+			}
+			return serr
+		}}
 		c, err := lc.ListenPacket(context.Background(), "udp4", "0.0.0.0:0")
 		if err != nil {
 			return nil, err
@@ -201,12 +212,14 @@ func (u *VerifC10UDP) ReadBatch(max, expect int) (out []VerifC10Recv, shed int) 
 		if want > udpBatchSize {
 			want = udpBatchSize
 		}
+		_ = u.pc.SetReadDeadline(time.Now().Add(5 * time.Second))
 		for shed < want {
 			if !r.shed() {
 				break
 			}
 			shed += r.received
 		}
+		_ = u.pc.SetReadDeadline(time.Time{})
 		return nil, shed
 	}
 	want := expect
@@ -216,7 +229,11 @@ func (u *VerifC10UDP) ReadBatch(max, expect int) (out []VerifC10Recv, shed int) 
 	got := 0
 	for got < want {
 		r.armed = held
-		if err := r.rc.Read(r.readFn); err != nil || r.rerr != nil {
+		// never hang the driver: a datagram that does not show up within 5 s ends the op
+		_ = u.pc.SetReadDeadline(time.Now().Add(5 * time.Second))
+		err := r.rc.Read(r.readFn)
+		_ = u.pc.SetReadDeadline(time.Time{})
+		if err != nil || r.rerr != nil {
 			break
 		}
 		n := r.received
@@ -270,10 +287,16 @@ func (u *VerifC10UDP) ReadPortable(want int) (out []VerifC10Recv) {
 	e := u.e
 	e.readers.Add(1)
 	go e.reader(0, u.pc)
+	timeout := time.After(5 * time.Second)
+wait:
 	for len(out) < want {
-		j := <-e.ready
-		u.pending = append(u.pending, j)
-		out = append(out, VerifC10Recv{From: j.raddr, RxLen: j.rxLen, Fate: "queued"})
+		select {
+		case j := <-e.ready:
+			u.pending = append(u.pending, j)
+			out = append(out, VerifC10Recv{From: j.raddr, RxLen: j.rxLen, Fate: "queued"})
+		case <-timeout:
+			break wait
+		}
 	}
 	_ = u.pc.SetReadDeadline(time.Unix(1, 0))
 	e.readers.Wait()
